@@ -14,7 +14,7 @@ Iota(n) == [i \in 1..n |-> i - 1]
 Rev(s) == [i \in 1..Len(s) |-> s[Len(s) + 1 - i]]
 
 MapOps == {"map", "mapinfo", "elem", "mdinfo"}
-AllOps == MapOps \cup {"ext_ctor", "subext", "span", "span_obs"}
+AllOps == MapOps \cup {"ext_ctor", "subext", "span", "span_obs", "eq"}
 
 \* the driver stayed inside the domain the property quantifies over (anything else is a harness error)
 Pre(ev) ==
@@ -25,6 +25,8 @@ Pre(ev) ==
             /\ (ev.layout \in {"transpose_right", "transpose_left"} => Len(ev.ext) = 2)
             /\ (ev.op \in {"map", "elem"} => InRange(ev.ext, ev.idx)))
     /\ (ev.op = "ext_ctor" => Compatible(ev.pat, ev.ext))
+    /\ (ev.op = "eq" => Compatible(ev.pat, ev.ext) /\ Compatible(ev.pat2, ev.ext2) /\ ev.what \in {"extents", "right", "left"}
+                        /\ (ev.what # "extents" => Len(ev.ext) = Len(ev.ext2)))
     /\ (ev.op = "subext" => Compatible(ev.pat, ev.ext) /\ SlicesOK(ev.ext, ev.slices))
     /\ (ev.op = "span" => ev.form \in {"first", "last", "subspan"} /\ SpanPre(ev.form, ev.n, ev.o, ev.c)
                           /\ (ev.sn = -1 \/ ev.sn = ev.n))
@@ -50,6 +52,8 @@ Bad(ev) ==
       [] ev.op = "subext" ->
             Chk("static_extent", ev.rpat = SubPattern(ev.pat, ev.slices)) \o Chk("extent", ev.rext = SubExtents(ev.ext, ev.slices))
             \o Chk("rank", ev.rrank = Len(SubExtents(ev.ext, ev.slices)))
+      [] ev.op = "eq" ->
+            Chk("operator==", ev.eq = ExtentsEqual(ev.ext, ev.ext2)) \o Chk("operator!=", ev.ne = ~ExtentsEqual(ev.ext, ev.ext2))
       [] ev.op = "span" ->
             Chk("data+size", <<ev.roff, ev.rsize>> = SpanRet(ev.form, ev.n, ev.o, ev.c))
             \o Chk("extent", ev.rext = SpanRetExtent(ev.form, ev.tpl, ev.sn, ev.o, ev.c))
@@ -69,6 +73,7 @@ ExpectedRec(ev) ==
       [] ev.op = "mdinfo" -> [size |-> Size(ev.ext), extents |-> ev.ext]
       [] ev.op = "ext_ctor" -> [extents |-> ev.ext, rdyn |-> RankDynamic(ev.pat)]
       [] ev.op = "subext" -> [rpat |-> SubPattern(ev.pat, ev.slices), rext |-> SubExtents(ev.ext, ev.slices)]
+      [] ev.op = "eq" -> [eq |-> ExtentsEqual(ev.ext, ev.ext2)]
       [] ev.op = "span" -> [ret |-> SpanRet(ev.form, ev.n, ev.o, ev.c), extent |-> SpanRetExtent(ev.form, ev.tpl, ev.sn, ev.o, ev.c)]
       [] ev.op = "span_obs" -> [fwd |-> Iota(ev.n)]
 
